@@ -256,8 +256,8 @@ Cat == <<
   (*92*) C(N("Sum", << Call(mfn("copysign"), << N("Sum", << P2(3, V("omega")), V("phi") >>), V("kappa") >>),
                        P2(2, V("amp")), P2(-5, V("offset")) >>),
            << "amp" >>, << "kappa", "offset", "omega", "phi" >>),
-  (*93*) C(N("Sum", << Call(mfn("fabs"), << N("Sum", << V("p"), P2(-2, V("q")) >>) >>), P2(3, V("r")) >>),
-           << >>, << "p", "q", "r" >>),
+  (*93*) C(N("Sum", << Call(mfn("fabs"), << N("Sum", << V("north"), P2(-2, V("east")) >>) >>), P2(3, V("up")) >>),
+           << >>, << "east", "north", "up" >>),
   (*94*) C(N("Sum", << P2(2, Call(mfn("fabs"), << V("delta") >>)), P2(3, V("gamma")), P2(5, vz),
                        P2(7, V("w")), P2(-11, V("k")) >>),
            << >>, << "delta", "gamma", "k", "w", "z" >>),
